@@ -4,16 +4,16 @@ use crate::common::*;
 
 pub fn run(ctx: &Ctx) -> Outcome {
     let mut out = Outcome::default();
-    let d = ctx.tier.pick(6, 8);
+    let d = ctx.tier.pick(7, 8);
     run_and_report(ctx, &nagle(ctx.tier, true, d), &mut out);
     run_and_report(ctx, &nagle(ctx.tier, false, d), &mut out);
     run_and_report(ctx, &nagle_recovery(ctx.tier, d), &mut out);
     // on a path whose segment size is still being searched (probe slots, changing MSS)
     run_and_report(ctx, &nagle_mtu(ctx.tier, false, 1, ctx.tier.pick(7, 9)), &mut out);
     run_and_report(ctx, &nagle_mtu(ctx.tier, true, 1, ctx.tier.pick(7, 9)), &mut out);
-    run_and_report(ctx, &nagle_close(ctx.tier, ctx.tier.pick(6, 8)), &mut out);
+    run_and_report(ctx, &nagle_close(ctx.tier, ctx.tier.pick(7, 8)), &mut out);
     for r in [0usize, 1] {
-        run_and_report(ctx, &nagle_mtu_sack(ctx.tier, r, ctx.tier.pick(6, 8)), &mut out);
+        run_and_report(ctx, &nagle_mtu_sack(ctx.tier, r, ctx.tier.pick(7, 8)), &mut out);
     }
     out.rule = "C18: explicit-state BFS over write-size sequences x ACK timings x both Nagle settings; judged at every first transmission and after every step in which the connection ran".into();
     out.assumptions.push("'limited only by window and congestion control' is evaluated with the congestion window read through the hook observer".into());
